@@ -339,12 +339,12 @@ def parts(tier):
     q = tier == "quick"
     return [
         hyp_part("forward", s_forward_quick if q else s_forward_thorough, interpret_forward, tier,
-                 quick=450, thorough=6000, quick_shards=3, thorough_shards=16,
+                 quick=400, thorough=4000, quick_shards=3, thorough_shards=16,
                  # generator-degenerate guard (labels are shared with the backward part, so these are loose)
                  floors={"has:vector": 0.03, "has:udt": 0.03, "has:map": 0.04, "has:set": 0.04, "f:null-inside": 0.035,
                          "f:int-boundary": 0.025, "pv:v1-2": 0.06, "forward:exact": 0.1, "forward:exact-up-to-set-order": 0.03}),
         hyp_part("backward", s_backward_quick if q else s_backward_thorough, interpret_backward, tier,
-                 quick=450, thorough=6000, quick_shards=3, thorough_shards=16),
+                 quick=400, thorough=4000, quick_shards=3, thorough_shards=16),
         EnumPart("probes", _PROBE_CHUNKS, probe_cases, interpret_probe),
-        hyp_part("range", s_random_range, interpret_probe, tier, quick=300, thorough=4000, quick_shards=1, thorough_shards=4),
+        hyp_part("range", s_random_range, interpret_probe, tier, quick=300, thorough=3000, quick_shards=1, thorough_shards=4),
     ]
